@@ -19,7 +19,7 @@ pub const DECOY_RECEIVERS: &[&str] = &["socket", "bus", "tx", "emitter_like"];
 pub const PLACEMENTS: &[&str] = &[
     "stmt", "let_init", "if_then", "if_else", "else_if", "match_arm_expr", "match_arm_block", "loop", "while", "for", "nested_block", "try", "await", "unwrap", "ok", "expect", "let_underscore",
 ];
-pub const PAYLOADS: &[&str] = &["lit_str", "lit_int", "lit_float", "lit_bool", "struct_expr", "typed_param", "typed_let", "let_struct", "ref_var", "clone_var", "call", "method_call", "tuple", "macro", "unit"];
+pub const PAYLOADS: &[&str] = &["lit_str", "lit_int", "lit_float", "lit_bool", "struct_expr", "typed_param", "typed_let", "let_struct", "ref_var", "clone_var", "call", "method_call", "tuple", "macro", "unit", "untyped_let", "untyped_let_ref"];
 
 #[derive(Clone, Debug)]
 pub struct Emit {
@@ -63,6 +63,10 @@ fn payload_parts(e: &Emit, k: usize) -> (String, Vec<String>, String, Option<Sha
         "let_struct" => (format!("let {} = Note {{ id: 2, text: String::new() }};\n", var), vec![], var.clone(), Some(Shape::Ref("Note".into()))),
         "ref_var" => (String::new(), vec![format!("{}: {}", var, ty_rust)], format!("&{}", var), Some(e.ty.d())),
         "clone_var" => (String::new(), vec![format!("{}: {}", var, ty_rust)], format!("{}.clone()", var), Some(e.ty.d())),
+        // a binding without annotation initialised by a call: not evident, whatever other
+        // functions of the file call their (typed) variables
+        "untyped_let" => (format!("let {} = compute_payload(4);\n", var), vec![], var.clone(), None),
+        "untyped_let_ref" => (format!("let {} = registry.snapshot();\n", var), vec![], format!("&{}", var), None),
         "call" => (String::new(), vec![], "compute_payload(3)".into(), None),
         "method_call" => (String::new(), vec![], "registry.snapshot()".into(), None),
         "tuple" => (String::new(), vec![], "(1, \"two\")".into(), None),
@@ -402,10 +406,20 @@ pub fn random_project(t: &mut Tape, deep: bool) -> (EvProject, &'static str) {
     let mut pool: Vec<Emit> = vec![];
     for _ in 0..n_events {
         let mut name = names::random_event_name(t);
-        if t.chance(1, 6) && !pool.is_empty() {
+        if t.chance(1, 3) && !pool.is_empty() {
             // a twin differing only in '-' / '_'
             let base = pool[t.pick(pool.len())].name.clone();
-            let tw = if base.contains('-') { base.replace('-', "_") } else { base.replace('_', "-") };
+            let tw = match t.pick(4) {
+                0 => format!("{}-2", base),
+                1 => format!("{}2", base),
+                _ => {
+                    if base.contains('-') {
+                        base.replace('-', "_")
+                    } else {
+                        base.replace('_', "-")
+                    }
+                }
+            };
             if tw != base {
                 name = tw;
             }
@@ -462,7 +476,7 @@ pub fn grid() -> Vec<(EvProject, &'static str)> {
 }
 
 pub fn run(ctx: &Ctx) {
-    ctx.set_rule("projects of 1-4 files with 0-4 functions (commands and helpers) whose bodies place emit/emit_to at 17 positions (statement, let initialiser, if/else-if/else, match arms, loop/while/for, nested blocks, ?, .await, .unwrap()/.ok()/.expect()) on 9 documented receiver forms; event names over [A-Za-z0-9_-/:] incl. '-'/'_' twins; one name emitted 1-3 times; 15 payload forms (literals, struct expression, typed parameter/let of shallow or one-level composite types, &x, x.clone(), and non-evident forms); decoy emits on undocumented receivers; grid = every placement x receiver, every payload form x 5 types x 2 modes, 13 name shapes, repeated/twin/no-event projects; then random projects. evaluation = one generation run; non-trivial = >=2 events and (a name with ':' or '/', or a repeated name, or a composite payload)");
+    ctx.set_rule("projects of 1-4 files with 0-4 functions (commands and helpers) whose bodies place emit/emit_to at 17 positions (statement, let initialiser, if/else-if/else, match arms, loop/while/for, nested blocks, ?, .await, .unwrap()/.ok()/.expect()) on 9 documented receiver forms; event names over [A-Za-z0-9_-/:] incl. '-'/'_' twins; one name emitted 1-3 times; 17 payload forms (literals, struct expression, typed parameter/let of shallow or one-level composite types, &x, x.clone(), and non-evident forms); decoy emits on undocumented receivers; grid = every placement x receiver, every payload form x 5 types x 2 modes, 13 name shapes, repeated/twin/no-event projects; then random projects. evaluation = one generation run; non-trivial = >=2 events and (a name with ':' or '/', or a repeated name, or a composite payload)");
     ctx.set_exhaustive(false);
     ctx.assume("payload 'syntactically evident' = literal, struct expression, typed parameter/binding, &x, x.clone(); call/method/tuple/macro results must be `unknown`");
     let g = grid();
@@ -483,6 +497,12 @@ pub fn replay(check: &str, input: &Value, stats: &mut Stats) -> Option<Vec<Failu
             let g = grid();
             let (p, m) = g.get(input["index"].as_u64()? as usize)?;
             Some(check_project(p, m, stats))
+        }
+        "c12.explicit" => {
+            // one emit of the given payload form in a single command
+            let e = Emit { name: "data_ready".into(), receiver: "app".into(), emit_to: false, placement: "stmt".into(), payload: input["payload"].as_str()?.to_string(), ty: Ty::named("Note"), decoy: false };
+            let p = EvProject { n_files: 1, fns: vec![FnM { name: "handler".into(), is_command: true, file: 0, emits: vec![e] }] };
+            Some(check_project(&p, input["mode"].as_str().unwrap_or("none"), stats))
         }
         "c12.random" => {
             let mut tape = Tape::new(super::tape_of(input));
